@@ -78,8 +78,9 @@ def run_lex(r, prop, n_quick=20, n_thorough=200, use=("lex.bisim", "lex.wfmodes"
             "kind": "validator-rejects-emitted-table" if first[1].startswith(("lex.bisim", "lex.wf")) else "correspondence-broken",
             "first": {"case_line": expand_lets(res["cases"], first[0])[:20000], "implementation": first[2], "model": first[3]},
             "counts": {k: len(v) for k, v in by.items()},
-            "note": "search: the reference lexer found no differing input among %d runs; oracle hits for other properties: %s" % (
-                len(res["cases"]), {k: len(v) for k, v in hits.items()}),
+            "note": ("the validator rejects the table of a specification on which the compiled lexer also differs from the rule-level definition (field `input`)"
+                     if borrowed else "search: the reference lexer found no differing input among %d runs; oracle hits for other properties: %s" % (
+                         len(res["cases"]), {k: len(v) for k, v in hits.items()})),
             "names": "theorems Lox.Props.%s.* rely on Lex.bisim (Lox/Lex/Bisim.lean), wfModes (Lox/Lex/Runtime.lean) and the model Lox/Lex/Model.lean" % prop,
         }, bool(borrowed))
     r.cov[family + "_counters"] = counters
